@@ -292,8 +292,32 @@ class ExecGen:
         self.ids += [ibtp_id(f1, t1, i1), ibtp_id(f2, t2, i2)]
         self.tags.add("reused-deadline-scenario")
 
+    def scripted_receipt_with_group(self):
+        """a one-to-one request with a deadline is answered by a receipt that carries a Group field (the field is the sender's to
+        fill): the record becomes final and nothing may happen to it at the deadline"""
+        r = self.rng
+        f, t = r.choice([("c1:s1", "c2:s1"), ("c2:s1", "c1:s1"), ("c1:s2", "c2:s3"), ("c4:s1", "c2:s1"), ("c2:s3", "c4:s1")])
+        T = r.choice([3, 4, 5])
+        i = self.next_req.get((f, t), 1)
+
+        def blk(txs):
+            self.height += 1
+            self.ops.append("block " + " | ".join(txs))
+            self.observe()
+        blk([f"ibtp {ADMIN[f.split(':')[0]]} {f} {t} {i} req {T} - ok"])
+        grp = r.choice([f"{t}={i}", f"{t}={i},c4:s1=1", "c2:s3=7"])
+        blk([f"ibtp {ADMIN[t.split(':')[0]]} {f} {t} {i} {r.choice(['ok', 'ok', 'fail'])} 0 {grp} ok"])
+        self.next_req[(f, t)] = i + 1
+        self.next_rcpt[(f, t)] = i + 1
+        self.watch = getattr(self, "watch", []) + [ibtp_id(f, t, i)]
+        self.ids += [ibtp_id(f, t, i)]
+        self.tags.add("receipt-with-group-scenario")
+
     def history(self, nblocks):
         k = self.rng.random()
+        if self.focus in ("single", "mixed") and k > 0.9:
+            self.scripted_receipt_with_group()
+            nblocks = max(nblocks, 7)
         if self.focus in ("single", "mixed") and k < 0.1:
             self.scripted_long_pair()
             nblocks = max(nblocks, 9)
